@@ -113,7 +113,10 @@ class ExprMixin:
             if st is None:
                 return []
         if op == "Mod" and isinstance(a, VStr):
-            return [(st, VStr(z3.String(fresh_name("fmt"))))]   # %-formatting: opaque text
+            r = self.percent_template(st, a.const(), b)
+            if r is not None:
+                return [(st, r)]
+            return [(st, self.opaque_str(st, "percent-format", node))]   # %-formatting the engine does not follow: opaque text
         try:
             return [(st, ops.pure_binop(op, a, b))]
         except Unsupported as e:
